@@ -191,13 +191,17 @@ def soup_shard(shard):
             line = joiner.join(toks)
             ok = "add x1, x1, x1" if arch == "riscv" else "INC"
             # the same line first at line 6 of a longer text, then in shorter texts: the outcome of a load must not depend on earlier loads
+            earlier = []
             for wrap in (f"{ok}\n\n# c\n{ok}\n  \n{{l}}\n", "{l}\n", ".data\n{l}\n", "ok: " + ok + "\n{l}\n"):
                 text = wrap.format(l=line)
                 p.evaluations += 1
                 p.nontrivial += 1
                 d = classify_load(arch, text)
                 if d:
-                    p.violation(dict(oracle="load-error-typing", arch=arch, field=d[0], fault="token-soup"), dict(kind="text", arch=arch, text=text), f"{arch} {text!r}: {d[1]}", size=(n, len(text)))
+                    # the case keeps the loads that preceded it in this process: the outcome may depend on them
+                    p.violation(dict(oracle="load-error-typing", arch=arch, field=d[0], fault="token-soup"), dict(kind="text-sequence", arch=arch, texts=earlier + [text]),
+                                f"{arch} {text!r}" + (f" (after loading {len(earlier)} other texts containing the same line)" if earlier else "") + f": {d[1]}", size=(n, len(text)))
+                earlier.append(text)
     return p
 
 
@@ -333,6 +337,11 @@ def unimpl_shard(i):
 
 def replay(case):
     k = case["kind"]
+    if k == "text-sequence":
+        d = None
+        for text in case["texts"]:
+            d = classify_load(case["arch"], text)
+        return [(dict(oracle="load-error-typing", arch=case["arch"], field=d[0]), d[1])] if d else []
     if k == "text":
         text = case.get("text")
         if text is None:
